@@ -1,42 +1,115 @@
-// C01 — monad / functor / applicative laws and coherence of the derived combinators.
+// C01 — monad / functor / applicative laws and coherence of the derived combinators of
+// option, try, either, seq, list, iterator, lazy, statet, fn0, fn1.
+//
+// Batch b exercises package harnesses[b % len(harnesses)]. Case i of a batch runs the check
+// (one exported combinator, or one random expression program) selected by i alone, on
+// operands drawn from w.Rand(i); w.Site names the combinator right before every library call
+// so that a process-fatal stack overflow is attributed to it by the parent.
 package main
 
 import (
+	"sort"
+	"strings"
+
 	"verif/vrt"
 )
 
 type pkgHarness struct {
-	prof   *profile
-	checks []check
+	prof    *profile
+	checks  []check
+	program *check   // random expression programs (nil: none)
+	extra   []string // further hit names (builder methods) that must be observed
 }
 
 var harnesses []pkgHarness
 
 func init() {
+	po, pt, pe, ps := programOption(), programTry(), programEither(), programStatet()
 	harnesses = []pkgHarness{
-		{profOption, checksOption()},
-		{profTry, checksTry()},
-		{profEither, checksEither()},
-		{profStatet, checksStatet()},
+		{profOption, append(checksOption(), builderChecksOption()...), &po, builderHitsOption()},
+		{profTry, append(checksTry(), builderChecksTry()...), &pt, builderHitsTry()},
+		{profEither, checksEither(), &pe, nil},
+		{profStatet, checksStatet(), &ps, nil},
 	}
+}
+
+// slots: the regular checks in order, then one program slot for every four checks.
+func (h *pkgHarness) slots() int {
+	if h.program == nil {
+		return len(h.checks)
+	}
+	return len(h.checks) + (len(h.checks)+3)/4
+}
+
+func batchesPerPkg(tier string) int {
+	if tier == "thorough" {
+		return 16
+	}
+	return 2
+}
+
+func casesPerBatch(tier string) int {
+	if tier == "thorough" {
+		return 7500
+	}
+	return 2000
+}
+
+func run(w *vrt.W) {
+	h := &harnesses[w.Batch%len(harnesses)]
+	round := w.Batch / len(harnesses)
+	n := h.slots()
+	for i := w.From; i < w.To; i++ {
+		slot := i % n
+		rot := i/n + round*5
+		if slot < len(h.checks) {
+			runCheck(w, i, h.prof, h.checks[slot], rot)
+		} else {
+			runCheck(w, i, h.prof, *h.program, rot)
+		}
+	}
+}
+
+func floors(tier string) map[string]int64 {
+	fl := map[string]int64{}
+	for _, h := range harnesses {
+		for _, c := range h.checks {
+			fl["hit."+c.name] = 1
+		}
+		if h.program != nil {
+			fl["hit."+h.program.name] = 100
+		}
+		for _, e := range h.extra {
+			fl["hit."+e] = 1
+		}
+		fl["cases."+h.prof.pkg] = 1000
+	}
+	return fl
 }
 
 func main() {
 	vrt.Main(vrt.Config{
 		Property: "C01",
-		Batches: func(tier string) int {
-			return len(harnesses) * 2
-		},
-		Cases: func(tier string, b int) int {
-			return 2000
-		},
-		Run: func(w *vrt.W) {
-			h := harnesses[w.Batch%len(harnesses)]
-			for i := w.From; i < w.To; i++ {
-				ck := h.checks[i%len(h.checks)]
-				runCheck(w, i, h.prof, ck, i/len(h.checks))
+		Batches:  func(tier string) int { return len(harnesses) * batchesPerPkg(tier) },
+		Cases:    func(tier string, b int) int { return casesPerBatch(tier) },
+		Run:      run,
+		Floors:   floors,
+		Rule:     "todo",
+		Finish: func(tier string, m *vrt.Merged, cov map[string]any) {
+			per := map[string]int{}
+			for k, v := range m.Counters {
+				if strings.HasPrefix(k, "hit.") && v > 0 {
+					name := strings.TrimPrefix(k, "hit.")
+					per[name[:strings.Index(name, ".")]]++
+				}
 			}
+			cov["combinators_hit_per_package"] = per
+			names := make([]string, 0, len(per))
+			for k := range per {
+				names = append(names, k)
+			}
+			sort.Strings(names)
+			cov["packages"] = names
 		},
-		Rule: "todo",
 	})
 }
